@@ -369,10 +369,13 @@ class Case:
             m_u, S_u = m, Sq
             # p(u) = N(mz, Kzz + jitter I) with the SAME jitter in both modes and whether or not a forward call came first (a first version of
             # this reference mirrored the 1e-3 default of `add_jitter()` that `prior_distribution` used in evaluation mode; that was the library's
-            # defect, found by a bug-hunting sub-agent and repaired, not a convention of the property)
+            # defect, found by a bug-hunting sub-agent, not a convention of the property; the one-line repair makes the pinned example test
+            # test_simple_gp_classification fail - its optimisation relies on the larger jitter - so it is recorded as a known finding)
             kl = RV.kl_q_p(m, Sq, mz, RV.add_jitter(Kzz, self.jit))
             mean, cov = RV.predictive(Kxx, Kxz, Ktz, mx, mz, m_u, S_u)
-            return dict(mean=mean, cov=cov, kl=kl, prior_mean=mx, prior_cov=Kxx, kl_zero=True)
+            return dict(mean=mean, cov=cov, kl=kl, prior_mean=mx, prior_cov=Kxx, kl_zero=True,
+                        kl_alt=(RV.kl_q_p(m, Sq, mz, RV.add_jitter(Kzz, JIT_PRIOR)), "(= KL against N(mz, Kzz + 1e-3 I): the default of add_jitter() "
+                                "instead of the strategy's jitter)"))
         R = RV.whitening_factor(Ktz, "sym" if self.s == "CIQ" else "chol")
         m_u, S_u = RV.unwhiten(mz, R, m, Sq)
         kl = RV.kl_q_p(m, Sq, torch.zeros(M, dtype=F64), eye(M))
@@ -716,8 +719,12 @@ def _run(cell, g, fails):
                 if not bcheck(fails, "kl", kl, ref["kl"], tol, "kl_divergence() != closed-form KL(q(u) || p(u))"):
                     if int(torch.count_nonzero(kl)) == 0:
                         note(fails, "(returned exactly 0)")
+                    elif ref.get("kl_alt") is not None and same(kl, ref["kl_alt"][0], tol):
+                        note(fails, ref["kl_alt"][1])
                 if is_prior and not delta and ref["kl_zero"]:
-                    bcheck(fails, "kl-zero", kl, torch.zeros((), dtype=F64), tol, "q(u) = p(u) but KL != 0")
+                    if not bcheck(fails, "kl-zero", kl, torch.zeros((), dtype=F64), tol, "q(u) = p(u) but KL != 0"):
+                        if ref.get("kl_alt") is not None and same(kl, ref["kl_alt"][0], tol):
+                            note(fails, ref["kl_alt"][1])
         # ---- whitened == unwhitened for the same q(u)
         if s == "Variational" and cell["dist"] == "Cholesky" and "q_u" in ref:
             with fails.guard("whitened-vs-unwhitened"):
